@@ -353,7 +353,9 @@ type catalog struct {
 	Created map[string]int
 }
 
-func newCatalog() *catalog { return &catalog{Tables: map[string]*catTable{}, Created: map[string]int{}} }
+func newCatalog() *catalog {
+	return &catalog{Tables: map[string]*catTable{}, Created: map[string]int{}}
+}
 
 var (
 	reCreate  = regexp.MustCompile(`(?s)^CREATE TABLE (\w+)\s*\((.*)\)$`)
@@ -713,10 +715,10 @@ func (c16) Bounds(tier string) map[string]interface{} {
 }
 
 type c16Edge struct {
-	Old  dbSchema `json:"old"`
-	New  dbSchema `json:"new"`
-	Kind string   `json:"kind"`
-	Desc string   `json:"desc"`
+	Old  dbSchema  `json:"old"`
+	New  dbSchema  `json:"new"`
+	Kind string    `json:"kind"`
+	Desc string    `json:"desc"`
 	Mid  *dbSchema `json:"mid,omitempty"` // 2-chain: old -> mid -> new
 }
 
